@@ -22,6 +22,10 @@ type Case struct {
 	Op   Op
 	Outs []Outcome
 	Raw  string
+	// C02: inside the preconditions / inside the check's own assumption / addressed paths
+	Pre     bool
+	Assumed bool
+	Addr    [][]string
 }
 
 type rawCase struct {
@@ -32,6 +36,9 @@ type rawCase struct {
 		T   []json.RawMessage `json:"t"`
 		Res [][]string        `json:"res"`
 	} `json:"outs"`
+	Pre     *bool      `json:"pre"`
+	Assumed *bool      `json:"assumed"`
+	Addr    [][]string `json:"addr"`
 }
 
 func parseTree(raw []json.RawMessage) (Tree, error) {
@@ -64,7 +71,7 @@ func ParseCase(line string) (*Case, error) {
 	if err := json.Unmarshal([]byte(inner), &rc); err != nil {
 		return nil, err
 	}
-	c := &Case{Op: rc.Op, Raw: inner}
+	c := &Case{Op: rc.Op, Raw: inner, Pre: rc.Pre == nil || *rc.Pre, Assumed: rc.Assumed == nil || *rc.Assumed, Addr: rc.Addr}
 	var err error
 	if c.Prev, err = parseTree(rc.Prev); err != nil {
 		return nil, err
@@ -227,6 +234,55 @@ func (p *Pool) Close() {
 
 // RunCase executes one case on a fresh backend and reports a failure or nil.
 func RunCase(c *Case, kind string, tmp string, d *Dict) *Failure {
+	return runCase(c, kind, tmp, d, false)
+}
+
+// RunCaseClean executes a case that lies outside the C02 preconditions: the
+// backend may answer differently from the model but must fail cleanly.
+func RunCaseClean(c *Case, kind string, tmp string, d *Dict) *Failure {
+	return runCase(c, kind, tmp, d, true)
+}
+
+func related(p []string, addr [][]string) bool {
+	for _, a := range addr {
+		n := len(a)
+		if len(p) < n {
+			n = len(p)
+		}
+		if strings.Join(p[:n], "/") == strings.Join(a[:n], "/") {
+			return true // p is an ancestor of, equal to, or below an addressed path
+		}
+	}
+	return false
+}
+
+func changedOutside(prev, now Tree, addr [][]string) string {
+	pm := map[string]string{}
+	for _, n := range prev {
+		pm[strings.Join(n.P, "/")] = n.V
+	}
+	nm := map[string]string{}
+	for _, n := range now {
+		nm[strings.Join(n.P, "/")] = n.V
+		if related(n.P, addr) {
+			continue
+		}
+		if v, ok := pm[strings.Join(n.P, "/")]; !ok || v != n.V {
+			return fmt.Sprintf("%s is now %q (was %q)", strings.Join(n.P, "/"), n.V, v)
+		}
+	}
+	for _, n := range prev {
+		if related(n.P, addr) {
+			continue
+		}
+		if _, ok := nm[strings.Join(n.P, "/")]; !ok {
+			return fmt.Sprintf("%s disappeared", strings.Join(n.P, "/"))
+		}
+	}
+	return ""
+}
+
+func runCase(c *Case, kind string, tmp string, d *Dict, cleanOnly bool) *Failure {
 	fail := func(key, what string) *Failure {
 		return &Failure{Key: key, Backend: kind, Op: c.Op.String(), What: what, Case: c.Raw}
 	}
@@ -255,6 +311,16 @@ func RunCase(c *Case, kind string, tmp string, d *Dict) *Failure {
 	t1, err := b.Project(d)
 	if err != nil {
 		return fail("project:"+c.Op.Name+":"+spellKind(c.Op), err.Error())
+	}
+	if cleanOnly {
+		// outside the preconditions: any answer, but nothing outside the addressed paths may change
+		if ch := changedOutside(c.Prev, t1, c.Addr); ch != "" {
+			return fail("unclean:"+c.Op.Name, "outside the preconditions the call changed a path it did not address: "+ch)
+		}
+		if o1 := b.Outside(); o1 != outside0 {
+			return fail("outside:"+c.Op.Name+":"+spellKind(c.Op), fmt.Sprintf("outside the root changed:\n%s\n--->\n%s", outside0, o1))
+		}
+		return nil
 	}
 	matched := false
 	for _, o := range c.Outs {
@@ -294,7 +360,3 @@ func RunCase(c *Case, kind string, tmp string, d *Dict) *Failure {
 	}
 	return nil
 }
-
-// DiskPre reports whether a case lies inside the preconditions under which
-// C02 demands equal behaviour of the disk backend.  (filled in by C02)
-func DiskPre(c *Case) bool { return true }
